@@ -829,6 +829,59 @@ pub fn run(o: &Opts) -> Report {
                 rep.disagree(Disagreement { case: case.to_string(), got, expected: exp, class: "violation", obligation: "C02: the decoder reconstructs a key frame as Vp8Frame.decode does".into(), detail: "replayed".into() });
             }
             frame_case(&mut rep, &riff(&chunk(b"VP8 ", &vp8)), "replay");
+        } else if ["vp8quant", "vp8lf", "vp8resid", "vp8intra"].contains(&p[0]) {
+            // re-run the hook on the arguments of the line and compare with the model again
+            let bytes = |t: &str| if t == "-" { Vec::new() } else { unhex(t) };
+            let fl9 = |t: &str| { let mut a = [0u8; 9]; for (k, c) in t.chars().take(9).enumerate() { a[k] = (c == '1') as u8; } a };
+            let sfl = |a: &[u8; 9]| a.iter().map(|v| if *v != 0 { '1' } else { '0' }).collect::<String>();
+            let got = match p[0] {
+                "vp8quant" => {
+                    let lv: Vec<i8> = p[3].split(',').map(|x| x.parse().unwrap_or(0)).collect();
+                    match catch(|| hk::vp8_quant_factors(&bytes(p[4]), p[1] == "1", p[2] == "1", [lv[0], lv[1], lv[2], lv[3]])) {
+                        Ok(Ok(f)) => f.iter().map(|s| s.iter().map(|x| x.to_string()).collect::<Vec<_>>().join(",")).collect::<Vec<_>>().join(";"),
+                        Ok(Err(_)) => "err".to_string(),
+                        Err(m) => format!("PANIC {m}"),
+                    }
+                }
+                "vp8lf" => {
+                    let (w, h): (usize, usize) = (p[1].parse().unwrap_or(1), p[2].parse().unwrap_or(1));
+                    let (mbw, _mbh) = (w.div_ceil(16), h.div_ceil(16));
+                    let mbs: Vec<(bool, bool)> = p[6].as_bytes().chunks(2).map(|c| (c[0] == b'1', c.get(1) == Some(&b'1'))).collect();
+                    let crop = |b: &[u8], stride: usize, cw: usize, ch: usize| -> Vec<u8> { (0..ch).flat_map(|r| b[r * stride..r * stride + cw].to_vec()).collect() };
+                    match catch(|| hk::vp8_loop_filter(w as u16, h as u16, p[3] == "1", p[4].parse().unwrap_or(0), p[5].parse().unwrap_or(0), &bytes(p[7]), &bytes(p[8]), &bytes(p[9]), &mbs)) {
+                        Ok((fy, fu, fv)) => format!("{} {} {}", hex(&crop(&fy, mbw * 16, w, h)), hex(&crop(&fu, mbw * 8, w.div_ceil(2), h.div_ceil(2))), hex(&crop(&fv, mbw * 8, w.div_ceil(2), h.div_ceil(2)))),
+                        Err(m) => format!("PANIC {m}"),
+                    }
+                }
+                "vp8resid" => {
+                    let q: Vec<i16> = p[4].split(',').map(|x| x.parse().unwrap_or(0)).collect();
+                    match catch(|| hk::vp8_read_residual_data(&bytes(p[6]), &bytes(p[5]), p[1] == "1", fl9(p[2]), fl9(p[3]), [q[0], q[1], q[2], q[3], q[4], q[5]])) {
+                        Ok(Ok((blocks, nz, t, l))) => format!("ok {} {} {} {}", nz as u8, sfl(&t), sfl(&l), blocks.iter().map(|v| v.to_string()).collect::<Vec<_>>().join(",")),
+                        Ok(Err(_)) => "err".to_string(),
+                        Err(m) => format!("PANIC {m}"),
+                    }
+                }
+                _ => {
+                    let n = |k: usize| p[k].parse::<usize>().unwrap_or(0);
+                    let mut bm = [0i8; 16];
+                    for (k, c) in p[6].chars().take(16).enumerate() { bm[k] = c.to_digit(10).unwrap_or(0) as i8; }
+                    let res: Vec<i32> = p[7].split(',').map(|x| x.parse().unwrap_or(0)).collect();
+                    let (y, u, v) = (bytes(p[10]), bytes(p[11]), bytes(p[12]));
+                    let mbw = n(1);
+                    let mbh = (y.len() / (mbw * 256).max(1)).max(1);
+                    match catch(|| hk::vp8_intra_predict(mbw as u16, mbh as u16, n(2), n(3), n(4) as i8, n(5) as i8, bm, &res, &bytes(p[8]), &bytes(p[9]), &y, &u, &v)) {
+                        Ok(Some((fy, fu, fv, ft, fl))) => format!("{} {} {} {} {}", hex(&fy), hex(&fu), hex(&fv), hex(&ft), hex(&fl)),
+                        Ok(None) => "bad-mode".to_string(),
+                        Err(m) => format!("PANIC {m}"),
+                    }
+                }
+            };
+            let exp = drv.ask(case);
+            rep.case(case, true);
+            if got != exp {
+                let k = got.as_bytes().iter().zip(exp.as_bytes()).position(|(a, b)| a != b).unwrap_or(got.len().min(exp.len()));
+                rep.disagree(Disagreement { case: case.to_string(), got: got.chars().skip(k.saturating_sub(10)).take(60).collect(), expected: exp.chars().skip(k.saturating_sub(10)).take(60).collect(), class: "violation", obligation: format!("C02: the real function behind `{}` equals its model (replayed)", p[0]), detail: format!("first differing character {k}") });
+            }
         } else {
             let exp = drv.ask(case);
             rep.notes.push(format!("kernel replay: model says {exp}"));
